@@ -12,6 +12,18 @@ COMMON_ASSUME = [
 ]
 
 REGISTRY = {
+    "C12": {
+        "level": "exploration",
+        "technique": "composition of the independent token / placement / sharding models with the arranged reachability as oracle; observation of the first EXECUTE frame (node, server-assigned shard) of every request at the mock cluster",
+        "rule": "cases = worlds (1..6 mock nodes x 1..3 DCs x racks, vnodes 1..4, sharded nodes with 1..8 shards / msb 0|12 / with or without shard-aware port and unsharded nodes, some nodes down from the start, keyspace Simple RF 1..3 or NTS with per-DC RF 0..3, a tablet keyspace whose tablets the nodes announce through tablets-routing-v1 payloads on misrouted requests, pool PerShard(1|2) or PerHost(2|4), preference none / DC / DC+rack, failover on/off) x 110 executions of prepared statements with single (bigint) and composite (bigint, text with bind markers NOT in key order) partition keys; "
+                "executions start only after the mock has seen a full pool on every up node; one evaluation = one request whose first frame was observed; distinct = (world, request)",
+        "assumptions": COMMON_ASSUME + ["requests with no reachable permitted replica, requests for tablets not yet announced (or announced less than 150 ms ago) and owning shards the pool has no connection to are not asserted, only counted"],
+        "quick": [{"variant": "dbg"}],
+        "thorough": [{"variant": "dbg", "timeout_t": 5400}],
+        "level_text": "For every execution the first frame must arrive at a node that the independent models name as a replica of the key's token (in the preferred datacenter when it holds a reachable replica), on a connection whose server-assigned shard equals the model's shard of the token whenever the pool has one; for tablet tables the replica and shard of the announced tablet covering the token.",
+        "level_note": "trusted: refmodel murmur3 + replication + sharding (each validated in its own check), the mock cluster's shard assignment (source port modulo shard count on the shard-aware port, least loaded otherwise)",
+        "design_ref": "DESIGN.md §4 C12",
+    },
     "C05": {
         "level": "exploration",
         "technique": "relation checker over plans of the real DefaultPolicy on real ClusterStates built from generated topologies (hooks: in-memory ClusterState, per-node connected override), recording the Option<Shard> of every target",
